@@ -123,9 +123,92 @@ let show_outcome (o : outcome) : string =
 
 let nat_tr (i : int) : nat = let rec go i acc = if i <= 0 then acc else go (i - 1) (S acc) in go i O
 
+(* ---- MiniGo AST (the generator's token stream) ---- *)
+let ikinds = [| KInt; KInt8; KInt16; KInt32; KInt64; KUint; KUint8; KUint16; KUint32; KUint64; KUintptr |]
+let ikind_name = function
+  | KInt -> "int" | KInt8 -> "int8" | KInt16 -> "int16" | KInt32 -> "int32" | KInt64 -> "int64"
+  | KUint -> "uint" | KUint8 -> "uint8" | KUint16 -> "uint16" | KUint32 -> "uint32" | KUint64 -> "uint64" | KUintptr -> "uintptr"
+let binop_of = function
+  | "Add" -> Add | "Sub" -> Sub | "Mul" -> Mul | "Quo" -> Quo | "Rem" -> Rem | "And" -> And | "Or" -> Or
+  | "Xor" -> Xor | "AndNot" -> AndNot | "Shl" -> Shl | "Shr" -> Shr | _ -> failwith "binop"
+let cmpop_of = function
+  | "Ceq" -> Ceq | "Cne" -> Cne | "Clt" -> Clt | "Cle" -> Cle | "Cgt" -> Cgt | "Cge" -> Cge | _ -> failwith "cmpop"
+
+let rec parse_expr t : expr =
+  match next t with
+  | "c" -> let k = ikinds.(next_int t) in let v = next_z t in EConst (k, v)
+  | "tb" -> EBool (next_int t = 1)
+  | "ts" -> EStr (next_hex t)
+  | "v" -> EVar (next_z t)
+  | "b" -> let op = binop_of (next t) in let a = parse_expr t in let b = parse_expr t in EBin (op, a, b)
+  | "u" -> let op = (match next t with "Neg" -> Neg | "Not" -> Not | _ -> failwith "unop") in EUn (op, parse_expr t)
+  | "cmp" -> let c = cmpop_of (next t) in let a = parse_expr t in let b = parse_expr t in ECmp (c, a, b)
+  | "not" -> ENot (parse_expr t)
+  | "len" -> ELen (parse_expr t)
+  | "and" -> let a = parse_expr t in let b = parse_expr t in EAnd (a, b)
+  | "or" -> let a = parse_expr t in let b = parse_expr t in EOr (a, b)
+  | "cat" -> let a = parse_expr t in let b = parse_expr t in ECat (a, b)
+  | "idx" -> let a = parse_expr t in let b = parse_expr t in EIndex (a, b)
+  | "conv" -> let k = ikinds.(next_int t) in EConv (k, parse_expr t)
+  | "call" -> let f = next_z t in let n = next_int t in ECall (f, times n (fun () -> parse_expr t))
+  | x -> failwith ("expr token " ^ x)
+
+let rec parse_stmts t : stmt list = let n = next_int t in times n (fun () -> parse_stmt t)
+and parse_stmt t : stmt =
+  match next t with
+  | "decl" -> let x = next_z t in SDecl (x, parse_expr t)
+  | "set" -> let x = next_z t in SAssign (x, parse_expr t)
+  | "opset" -> let x = next_z t in let op = binop_of (next t) in SOpAssign (x, op, parse_expr t)
+  | "inc" -> SIncDec (next_z t, true)
+  | "dec" -> SIncDec (next_z t, false)
+  | "if" -> let c = parse_expr t in let a = parse_stmts t in let b = parse_stmts t in SIf (c, a, b)
+  | "for" -> let c = parse_expr t in let a = parse_stmts t in let b = parse_stmts t in SFor (c, a, b)
+  | "break" -> SBreak
+  | "cont" -> SContinue
+  | "ret0" -> SReturn None
+  | "ret" -> SReturn (Some (parse_expr t))
+  | "print" -> let n = next_int t in SPrint (times n (fun () -> parse_expr t))
+  | "expr" -> SExpr (parse_expr t)
+  | "block" -> SBlock (parse_stmts t)
+  | x -> failwith ("stmt token " ^ x)
+
+let parse_prog (s : string) : prog =
+  let t = { a = Array.of_list (List.filter (fun x -> x <> "") (String.split_on_char ' ' s)); pos = 0 } in
+  let n = next_int t in
+  times n (fun () ->
+    if next t <> "fn" then failwith "ast: fn expected";
+    let np = next_int t in
+    let ps = times np (fun () -> next_z t) in
+    let res = next_int t = 1 in
+    let body = parse_stmts t in
+    { fd_params = ps; fd_result = res; fd_body = body })
+
+let show_value (v : value) : string =
+  match v with
+  | VI (k, x) -> ikind_name k ^ ":" ^ dec_of_z x
+  | VB b -> "bool:" ^ bool_s b
+  | VS s -> "string:" ^ hex_of_str s
+let show_mtrace (tr : value list list) : string =
+  String.concat "" (List.map (fun l -> String.concat " " (List.map show_value l) ^ "|") tr)
+let show_pres (r : pres) : string =
+  match r with
+  | PDone o -> show_mtrace o ^ "ok"
+  | PPanicked (PanDivide, o) -> show_mtrace o ^ "panic:divide"
+  | PPanicked (PanIndex, o) -> show_mtrace o ^ "panic:index"
+  | PPanicked (PanShift, o) -> show_mtrace o ^ "panic:shift"
+  | PStuck -> "stuck"
+  | PFuel -> "out-of-fuel"
+
+(* run: the VM model on a dump.  sem: the reference semantics on an AST.
+   tv: both, which must agree (translation validation of one program). *)
 let handle (f : string list) : string =
   match f with
   | ["run"; fuel; dump] -> show_outcome (vm_exec (parse_program dump) (nat_tr (int_of_string fuel)))
+  | ["sem"; fuel; ast] -> show_pres (run_prog (parse_prog ast) (nat_tr (int_of_string fuel)))
+  | ["tv"; fuel; dump; ast] ->
+    let a = show_outcome (vm_exec (parse_program dump) (nat_tr (int_of_string fuel))) in
+    let b = show_pres (run_prog (parse_prog ast) (nat_tr (int_of_string fuel))) in
+    if a = b then "agree" else "differ:vm-model=" ^ a ^ ";minigo=" ^ b
   | _ -> "driver-error:unknown-command"
 
 let () = main_loop handle
